@@ -297,6 +297,37 @@ func isRootField(s *hSchema, f *TField) bool {
 	return false
 }
 
+// bodyHasNullMember reports whether the body document (at any depth) spells field f as null.
+func bodyHasNullMember(v *TVal, f *TField) bool {
+	if v == nil {
+		return false
+	}
+	switch v.T.Kind {
+	case tSTRUCT:
+		for _, fv := range v.Fields {
+			if fv.F == f && fv.V == nil {
+				return true
+			}
+			if fv.F != nil && bodyHasNullMember(fv.V, f) {
+				return true
+			}
+		}
+	case tLIST, tSET:
+		for _, e := range v.List {
+			if bodyHasNullMember(e, f) {
+				return true
+			}
+		}
+	case tMAP:
+		for _, e := range v.Vals {
+			if bodyHasNullMember(e, f) {
+				return true
+			}
+		}
+	}
+	return false
+}
+
 func genRequest(w *W, s *hSchema, o hOpts, bodyKind int, g *hvgen) *hRequest {
 	t := w.T
 	r := &hRequest{BodyKind: bodyKind, Method: "POST"}
@@ -428,6 +459,12 @@ func genRequest(w *W, s *hSchema, o hOpts, bodyKind int, g *hvgen) *hRequest {
 			// (thrift.Options.SetOptionalBitmap off): whether such a field is "sought on http values"
 			// is not documented.
 			if f.Req == reqOptional && !o.SetOptBitmap && !(o.Mapping && len(s.Annos[f]) > 0) {
+				continue
+			}
+			// EXCLUDED: a field that is present in the body as an explicit null - whether null means "absent,
+			// keep seeking" or "given as nothing" is the null-vs-absent question no property states
+			// (thorough run seed 21, world 129653: an optional annotated field, body member null, own-key query value)
+			if bodyHasNullMember(r.BodyDoc, f) {
 				continue
 			}
 			den := 3
